@@ -20,7 +20,15 @@ def run(ctx):
         run_cfg(ctx, cfg)
 
 
-def run_cfg(ctx, cfg):
+def run_cfg(ctx, cfg, only=None, prefix=""):
+    """`only` / `prefix`: another property (C05: failed streams stay failed) reuses a subset of these rules under its own rule ids"""
+    import core as _core
+
+    def mk(rid, title, floor=None, config=None):
+        base = rid.split("@")[0]
+        if only is not None and base not in only:
+            return _core.Rule(ctx, rid, title, None, config)       # evaluated but not registered
+        return ctx.rule(prefix + rid, title, floor=floor, config=config)
     c = ctx.crate(cfg)
     sfx = "" if cfg == "H1" else "@" + cfg
     FULL, FINISH = discr(c, "MZFlush", "Full"), discr(c, "MZFlush", "Finish")
@@ -38,14 +46,14 @@ def run_cfg(ctx, cfg):
     davail0 = fld(c, state, "InflateState", "dict_avail", 0)
     fn = f.name
 
-    r1 = ctx.rule("R13.1" + sfx, "flush == Full -> Err(Stream) with no state write and no decode", floor=1, config=cfg)
-    r2 = ctx.rule("R13.2" + sfx, "sticky errors: CannotMakeProgress -> Err(Buf), negative status -> Err(Data), before any decode", floor=2, config=cfg)
-    r3 = ctx.rule("R13.3" + sfx, "has_flushed gating and update; first_call consumed on every non-Full row", floor=4, config=cfg)
-    r6 = ctx.rule("R13.6" + sfx, "StreamEnd only with status Done and an empty pending window; pending window delivered before decoding", floor=4, config=cfg)
-    r7 = ctx.rule("R13.7" + sfx, "reported counts are sums of the counts returned by the layer below", floor=3, config=cfg)
-    r8 = ctx.rule("R13.8" + sfx, "first-call Finish path ends in StreamEnd or leaves a negative last_status (buffer modes never mix)", floor=3, config=cfg)
-    r4 = ctx.rule("R13.4" + sfx, "every decompress() result is stored to last_status on all paths", floor=2, config=cfg)
-    r5 = ctx.rule("R13.5" + sfx, "status -> MZError mapping agrees between the first-call path and inflate_loop", floor=4, config=cfg)
+    r1 = mk("R13.1" + sfx, "flush == Full -> Err(Stream) with no state write and no decode", floor=1, config=cfg)
+    r2 = mk("R13.2" + sfx, "sticky errors: CannotMakeProgress -> Err(Buf), negative status -> Err(Data), before any decode", floor=2, config=cfg)
+    r3 = mk("R13.3" + sfx, "has_flushed gating and update; first_call consumed on every non-Full row", floor=4, config=cfg)
+    r6 = mk("R13.6" + sfx, "StreamEnd only with status Done and an empty pending window; pending window delivered before decoding", floor=4, config=cfg)
+    r7 = mk("R13.7" + sfx, "reported counts are sums of the counts returned by the layer below", floor=3, config=cfg)
+    r8 = mk("R13.8" + sfx, "first-call Finish path ends in StreamEnd or leaves a negative last_status (buffer modes never mix)", floor=3, config=cfg)
+    r4 = mk("R13.4" + sfx, "every decompress() result is stored to last_status on all paths", floor=2, config=cfg)
+    r5 = mk("R13.5" + sfx, "status -> MZError mapping agrees between the first-call path and inflate_loop", floor=4, config=cfg)
 
     decode_calls = ("inflate::core::decompress", "inflate::stream::inflate_loop", "inflate::stream::push_dict_out")
     n_full = 0
@@ -124,6 +132,9 @@ def run_cfg(ctx, cfg):
         want = norm([hasfl0, eqfin])
         for e in hs:
             good = good or norm(or_parts(e[2])) == want
+        if not hs:
+            # no store on this path: the field keeps its value, which is right exactly when old | (flush == Finish) == old here
+            good = norm([hasfl0]) == want
         if good:
             r3.ok(fn, "flushed-update", None)
         else:
